@@ -263,6 +263,7 @@ func checkC05(p *Prog, r *Report) {
 		}
 	}
 	p.cycleWatchRules(r, a)
+	p.mutexReleasedRule(r, "E6.mutex-released-on-every-path", "build", "core", "plz", "parse", "test")
 	// ---- (2) consumers
 	rule = "E5.taskdone-exactly-once"
 	consumers := map[*ssa.Function]string{}
@@ -773,6 +774,7 @@ func derivesFromNamedField(v ssa.Value, key string) bool {
 func checkC04(p *Prog, r *Report) {
 	r.Explanation = "E5/E7 rules on the queueing state machine. (1) at-most-once enqueue: every call of addPendingBuild is control-dependent on the true edge of SyncUpdateState(Active, Pending) (a CAS), and every `go queueTargetAsync` on the true edge of a CAS out of Inactive/Semiactive. (2) single executor: build.Build is called only from the action worker spawned in plz.Run, and sets state Building before anything else. (3) deps first: under the assumption building==true, every path from resolveDependencies to addPendingBuild passes the Dependencies()/WaitForBuild loop, and every path from WaitForBuild to addPendingBuild re-reads the dependency's State(); the DependencyFailed edge cannot reach addPendingBuild. (4) monotone states: every SetState argument is a constant >= Building outside package core, and >= Pending... anywhere. (5) reported once: every return path of build.Build logs exactly one terminal result (TargetBuilt/TargetCached via buildTarget's paths, TargetBuildFailed, TargetBuildStopped)."
 	r.NotCovered = []string{"the actual interleavings (the CAS rules hold for all of them)", "parse-time discovery races", "remote execution retries"}
+	p.dependencyEdgeRules(r)
 	// the terminal state is published before dependents are woken: WaitForBuild's callers read the state right after
 	// the finishedBuilding channel closes
 	if a0 := p.sched(r, "E5.state-before-wakeup"); a0 != nil && a0.finishBuild != nil && a0.setState != nil {
@@ -1356,4 +1358,166 @@ func (p *Prog) cycleWatchRules(r *Report, a *schedAnchors) {
 		}
 	})
 	r.check(woken, rule, "a failed build wakes those waiting for the target to be built", p.pos(fail.Pos()), fnName(a.build), "the failure branch of Build reaches a close of the target's pendingTargets channel", "when a target fails to build, the channel that WaitForBuiltTarget parks on (pendingTargets) is closed only for TargetBuilt/TargetCached: a parse that subincludes the failed target never wakes, its pending unit is never returned, and with --keep_going the build never terminates")
+}
+
+// dependencyEdgeRules: what the scheduler waits for is the set of declared dependency edges; three places can lose one
+// without anything else noticing. (a) the identity of a declared dependency is the whole label (subrepo included): the
+// lookup that de-duplicates declarations must compare BuildLabel values, not some of their fields. (b) require/provide:
+// every requirement of the dependant that the dependency provides for contributes its labels - the loop over Requires
+// has no way out before the last element. (c) `:all` never activates a target that a post-build function has just
+// created: its dependencies are added a moment later, and activating it in between lets it build without them.
+func (p *Prog) dependencyEdgeRules(r *Report) {
+	p.dependencyIdentityRule(r)
+	p.dependencyEdgeRulesBC(r)
+}
+
+func (p *Prog) dependencyIdentityRule(r *Report) {
+	// (a)
+	if di := p.Fn("core", "BuildTarget.dependencyInfo"); di == nil {
+		r.unresolved("E9.dependency-identity-is-the-whole-label", "core.BuildTarget.dependencyInfo")
+	} else {
+		whole, partial := false, false
+		eachInstr(di, false, func(_ *ssa.Function, i ssa.Instruction) {
+			bo, ok := i.(*ssa.BinOp)
+			if !ok || bo.Op != token.EQL {
+				return
+			}
+			if strings.HasSuffix(typeString(bo.X.Type()), "core.BuildLabel") {
+				whole = true
+				return
+			}
+			for t := range tagsOf(bo.X, SliceOpts{}) {
+				if strings.HasPrefix(t, "core.BuildLabel.") {
+					partial = true
+				}
+			}
+		})
+		r.check(whole && !partial, "E9.dependency-identity-is-the-whole-label", "dependencyInfo matches a declared dependency by the whole label", p.pos(di.Pos()), fnName(di), "one comparison of BuildLabel values", "dependencyInfo matches declared dependencies field by field and not on all fields (e.g. name and package but not subrepo): //pkg:lib and ///sub//pkg:lib become one dependency, the second edge never reaches Dependencies(), so it is neither waited for nor seen by the cycle detector")
+	}
+}
+
+func (p *Prog) dependencyEdgeRulesBC(r *Report) {
+	// (b)
+	if pf := p.Fn("core", "BuildTarget.provideFor"); pf == nil {
+		r.unresolved("E5.every-matching-requirement-provides", "core.BuildTarget.provideFor")
+	} else {
+		n := 0
+		for _, l := range sliceRangeLoops(pf) {
+			if !strings.HasSuffix(fieldKeyOfLoad(l.over), ".Requires") {
+				continue
+			}
+			n++
+			early := false
+			for b := range l.blocks {
+				for _, i := range b.Instrs {
+					if _, ok := i.(*ssa.Return); ok {
+						early = true
+					}
+				}
+				// a break: a successor outside the loop from a block other than the header
+				if b != l.header {
+					for _, sc := range b.Succs {
+						if !l.blocks[sc] && sc != l.header {
+							early = true
+						}
+					}
+				}
+			}
+			r.check(!early, "E5.every-matching-requirement-provides", "provideFor looks at every requirement of the dependant", p.pos(l.header.Instrs[0].Pos()), fnName(pf), "the loop over other.Requires has no return or break inside", "provideFor stops at the first requirement the dependency provides for: with requires=[hdrs, lib] and provides={hdrs: :c, lib: :d} only :c is queued and waited for, and the dependant's build starts while :d has not been built")
+		}
+		if n == 0 {
+			r.unresolved("E5.every-matching-requirement-provides", "loop over Requires in provideFor")
+		}
+	}
+	// (c)
+	if at, qt := p.Fn("core", "BuildState.ActivateTarget"), p.Fn("core", "BuildState.QueueTarget"); at == nil || qt == nil {
+		r.unresolved("E5.postbuild-targets-not-activated-by-all", "core.BuildState.ActivateTarget / QueueTarget")
+	} else {
+		n, bad := 0, 0
+		var site token.Pos
+		for _, ci := range callsInFn(at, qt) {
+			cc := callCommon(ci)
+			if len(cc.Args) < 2 || !tagsOf(cc.Args[1], SliceOpts{})["call:(*core.Package).AllTargets"] {
+				continue
+			}
+			n++
+			if !blockJustified(ci.Block(), func(f Fact) bool {
+				return fieldKeyOfLoad(f.V) == "core.BuildTarget.AddedPostBuild" && !f.Val
+			}, 6) {
+				bad++
+				site = ci.Pos()
+			}
+		}
+		if n == 0 {
+			r.unresolved("E5.postbuild-targets-not-activated-by-all", "QueueTarget for the members of :all in ActivateTarget")
+		} else {
+			r.check(bad == 0, "E5.postbuild-targets-not-activated-by-all", "`:all` does not activate targets added by a post-build function", p.pos(site), fnName(at), itoa(n)+" queueing site(s), each under !target.AddedPostBuild", "ActivateTarget queues every member of `:all`, including targets a post-build function has created but not yet given their dependencies: such a target goes Active -> Pending with an empty dependency list and builds before the dependency added a moment later")
+		}
+	}
+}
+
+// mutexReleasedRule: a mutex taken in a function of the scheduler's packages is given back on every path out of that
+// function: either its Unlock is deferred, or no return is reachable from the Lock without passing an Unlock of the same
+// mutex. (Functions whose name says they hand the lock to the caller - lock/Lock/acquire - are skipped.)
+func (p *Prog) mutexReleasedRule(r *Report, rule string, pkgs ...string) {
+	n, nBad := 0, 0
+	for _, fn := range p.Funcs(pkgs...) {
+		ln := strings.ToLower(fn.Name())
+		if strings.Contains(ln, "lock") || strings.Contains(ln, "acquire") {
+			continue
+		}
+		eachInstr(fn, false, func(_ *ssa.Function, i ssa.Instruction) {
+			c, ok := i.(*ssa.Call)
+			if !ok {
+				return
+			}
+			name := calleeName(&c.Call)
+			var unlock string
+			switch name {
+			case "(*sync.Mutex).Lock":
+				unlock = "(*sync.Mutex).Unlock"
+			case "(*sync.RWMutex).Lock":
+				unlock = "(*sync.RWMutex).Unlock"
+			case "(*sync.RWMutex).RLock":
+				unlock = "(*sync.RWMutex).RUnlock"
+			default:
+				return
+			}
+			mu := rootOf(c.Call.Args[0])
+			key := fieldKey(c.Call.Args[0])
+			same := func(v ssa.Value) bool {
+				if key != "" {
+					return fieldKey(v) == key
+				}
+				return rootOf(v) == mu
+			}
+			n++
+			deferred := false
+			eachInstr(fn, false, func(_ *ssa.Function, j ssa.Instruction) {
+				if d, ok := j.(*ssa.Defer); ok && calleeName(&d.Call) == unlock && same(d.Call.Args[0]) {
+					deferred = true
+				}
+			})
+			if deferred {
+				return
+			}
+			isUnlock := func(j ssa.Instruction) bool {
+				cc := callCommon(j)
+				if _, isDefer := j.(*ssa.Defer); isDefer || cc == nil {
+					return false
+				}
+				return calleeName(cc) == unlock && len(cc.Args) > 0 && same(cc.Args[0])
+			}
+			if existsPath(fn, c, nil, isUnlock) {
+				nBad++
+				r.bad(rule, fn.Name()+": "+strings.TrimPrefix(name, "(*sync.")+" is released on every path", p.pos(c.Pos()), fnName(fn), "a return is reachable from this Lock without the matching Unlock (e.g. an error return added after the deferred unlock was replaced by explicit ones): the mutex stays held for the rest of the process and every later caller blocks for ever")
+			}
+		})
+	}
+	if nBad == 0 {
+		r.ok(rule, "every mutex taken in the scheduler's packages is released on every path", "-", "", itoa(n)+" Lock/RLock sites examined (deferred unlock, or an unlock on every path to a return)")
+	}
+	if n < 5 {
+		r.unresolved(rule, "Lock sites in packages build/core/plz/parse/test (found "+itoa(n)+")")
+	}
 }
